@@ -97,6 +97,15 @@ class MsSqlImpl(SqlImpl):
         return cls.compile_query(table, query, sqa_expr)
 
     @classmethod
+    def compile_query(cls, table, query, sqa_expr):
+        sel = super().compile_query(table, query, sqa_expr)
+        # OFFSET needs an ORDER BY, but constant terms are not rendered (a constant
+        # first column, `arrange` by a constant)
+        if query.offset and not sel._order_by_clauses:
+            sel = sel.order_by(sqa.literal_column("(SELECT NULL)"))
+        return sel
+
+    @classmethod
     def compile_ordered_aggregation(cls, *args: sqa.ColumnElement, order_by: list[sqa.UnaryExpression], impl):
         return impl(*args).within_group(*order_by)
 
